@@ -1555,6 +1555,41 @@ def one_pass_iterable_rule(index, rep, rid, functions, param_names):
                     q = pm.get(q)
                 if rep_ctx:
                     bad = bad or x
+            if bad is None:
+                # walked once and then used again (iterated a second time, stored, handed on) on the same path
+                g = cfg_of(f)
+                rebind = {id(a) for a in walk_no_nested(f.node) if isinstance(a, ast.Assign) and any(isinstance(t, ast.Name) and t.id == p_ for t in a.targets)}
+                cons = []
+                raw = {x.id for x in g.reach([g.entry], avoid=lambda x: x.stmt is not None and id(x.stmt) in rebind, follow_exc=False)}
+                for nd in g.nodes:
+                    if nd.id not in raw:
+                        continue        # only reachable after the parameter was rebound: no longer the caller's iterable
+                    if nd.stmt is not None and id(nd.stmt) in rebind:
+                        continue
+                    uses = False
+                    if nd.kind == "forinit" and any(isinstance(x, ast.Name) and x.id == p_ for x in ast.walk(nd.ast)):
+                        uses = True
+                    elif nd.kind == "stmt":
+                        for x in walk_no_nested(nd.ast):
+                            if isinstance(x, ast.Name) and x.id == p_ and isinstance(x.ctx, ast.Load):
+                                par = pm.get(x)
+                                if isinstance(par, ast.Compare) and all(isinstance(o, (ast.Is, ast.IsNot)) for o in par.ops):
+                                    continue
+                                if isinstance(par, ast.Call) and isinstance(par.func, ast.Name) and par.func.id in ("isinstance", "id", "type", "hasattr", "len") and x in par.args:
+                                    continue
+                                if isinstance(par, ast.Subscript) and par.value is x:
+                                    continue
+                                uses = True
+                    if uses:
+                        cons.append(nd)
+                for a_ in cons:
+                    if a_.kind != "forinit" and not any(isinstance(c, ast.comprehension) for c in ast.walk(a_.ast)) and not any(isinstance(c, ast.Call) and isinstance(c.func, ast.Name) and c.func.id in _MATERIALISERS for c in ast.walk(a_.ast)):
+                        continue        # the first use must be a walk
+                    for b_ in cons:
+                        if b_ is a_:
+                            continue
+                        if g.can_reach(a_, lambda x, b_=b_: x is b_, avoid=lambda x: x.stmt is not None and id(x.stmt) in rebind, follow_exc=False) is not None:
+                            bad = bad or [x for x in ast.walk(b_.ast) if isinstance(x, ast.Name) and x.id == p_][0]
             rep.check(bad is None, rid, f.qualname, "iterable argument `%s` walked repeatedly" % p_, fn_where(f, bad if bad is not None else f.node), "%s walks `%s` once (or materialises it first)" % (f.qualname, p_),
                       "%s uses its argument `%s` in a repeated context (`%s`) without first turning it into a container: the documentation admits any iterable, and a generator / filter() / map() is empty after the first pass - asked to keep A, C and E the operation then keeps A only (or extracts a single leaf), while the same call with a list is right" % (f.qualname, p_, norm(pm.get(bad))[:60] if bad is not None else ""))
     return n
